@@ -10,7 +10,7 @@ TECHNIQUE = ("Coq theorems (induction over trees with a nested induction over th
              "builds the element tree; list inductions for the cleaning of values and names) about a hand-written model of "
              "the whole path from the bytes of a binary XML file to the element tree - chunk headers, string pool in both "
              "encodings, resource map, chunk loop, name/namespace resolution, attribute formatting (the C27 model), tree "
-             "construction; model tied to the source by a differential run on documents serialised by an independent writer")
+             "construction, and the composition of the layers over whole documents (induction over chunk lists); model tied to the source by a differential run on documents serialised by an independent writer")
 LEVEL_TEXT = ("Partial. Unbounded proof: for every element tree (any depth and width, any texts before, between and after "
               "children) the events of the tree in document order rebuild exactly that tree - element nesting, and every "
               "text in its place; printed attribute values contain only XML characters and clean values are unchanged; "
@@ -19,9 +19,13 @@ LEVEL_TEXT = ("Partial. Unbounded proof: for every element tree (any depth and w
               "padding - parsing the chunk and asking for string i returns exactly the i-th string; every node chunk written at "
               "any position of any buffer - element start with any number of 20-byte attribute records, element end, text, "
               "namespace start and end, and the resource map - is decoded to exactly its event (or state change) and the "
-              "parser moves to the end of the chunk. Not proved: the composition of these layers with the name and value "
-              "resolution into one statement about whole documents (strings resolved through the pool, namespace map, "
-              "typed values) - that is compared with the code, and with the document description, on every run.")
+              "parser moves to the end of the chunk; any SEQUENCE of such chunks is decoded to exactly the sequence of its "
+              "events, the parser's loop is the fold over them, and for the bytes of a whole document (header, pool, chunks) "
+              "whose events resolve - through that pool - to the document-order events of a tree x, the parser returns x; "
+              "for every attribute-free, namespace-free element tree of any shape with any texts this holds without any "
+              "hypothesis (bytes -> exactly that tree). Not proved: the resolution of element starts with attributes "
+              "and namespaces (namespace map, prefixes, typed values of C27 lifted to attribute lists) - that is compared "
+              "with the code, and with the document description, on every run.")
 LEVEL_NOTE = ("Trusted: Coq kernel; coq/Axml/PoolModel.v (StringBlock; malformed UTF-8 outside the model), "
               "coq/Axml/AxmlModel.v (AXMLParser/AXMLPrinter; names restricted to ASCII because of str.isalpha, comments and a "
               "second root outside the model, the namespace map as 'last declaration of a prefix wins', lxml's Element as a "
